@@ -145,7 +145,7 @@ pub fn compare(m1: &mut Beatmap, m2: &mut Beatmap) -> Vec<(String, String)> {
                 if (x.pos, x.new_combo, x.combo_offset, x.repeat_count) != (y.pos, y.new_combo, y.combo_offset, y.repeat_count) {
                     d.push(("hit-object".into(), format!("slider {i}: pos/combo/repeats {:?} -> {:?}", (x.pos, x.new_combo, x.combo_offset, x.repeat_count), (y.pos, y.new_combo, y.combo_offset, y.repeat_count))));
                 }
-                if x.path.control_points() != y.path.control_points() {
+                if !super::gen::same_control_points(x.path.control_points(), y.path.control_points()) {
                     d.push(("slider-control-points".into(), format!("slider {i}: {:?} -> {:?}", x.path.control_points(), y.path.control_points())));
                 }
                 if !ulp_close(x.velocity, y.velocity) {
